@@ -141,3 +141,4 @@ void h_mps(void) {
     V_CANARY("mps verify returns");
 }
 #endif
+
